@@ -5,8 +5,12 @@
 //@ include ipfix_types.rs
 verus! {
 
-pub uninterp spec fn tpl_valid(t: Template) -> bool;
-pub uninterp spec fn otpl_valid(t: OptionsTemplate) -> bool;
+}
+//@ include ipfix_valid_spec.rs
+verus! {
+// CommonTemplate::is_valid for the two template kinds (V.ipfix.is_valid): some field has a non-zero length
+pub open spec fn tpl_valid(t: Template) -> bool { fields_valid(t.fields@) }
+pub open spec fn otpl_valid(t: OptionsTemplate) -> bool { fields_valid(t.fields@) }
 impl Template {
     // nom-derive parser of a template record (V.ipfix.template.parse)
     #[verifier::external_body]
